@@ -280,19 +280,19 @@ func runSelftest(r *Run, repo string, _ []Finding) map[string]any {
 
 // seededChange is an independently written change (sub-agent) kept under /verif/seeded/<id>/.
 type seededChange struct {
-	ID        string   `json:"id"`
-	Property  string   `json:"property"`
-	Expect    string   `json:"expect"` // detected | undetected
-	ExpectKey string   `json:"expect_key,omitempty"`
-	Needs     string   `json:"needs,omitempty"`
-	Breaks    string   `json:"breaks,omitempty"`
-	Limit     string   `json:"limit,omitempty"`
+	ID        string `json:"id"`
+	Property  string `json:"property"`
+	Expect    string `json:"expect"` // detected | undetected
+	ExpectKey string `json:"expect_key,omitempty"`
+	Needs     string `json:"needs,omitempty"`
+	Breaks    string `json:"breaks,omitempty"`
+	Limit     string `json:"limit,omitempty"`
 	// CheckProperty names the property whose check reports the change when that is a sibling
 	// of the property the change breaks (empty: the same property).
 	CheckProperty string `json:"check_property,omitempty"`
 	Dir           string `json:"-"`
 	runAs         string
-	Ran       []string `json:"ran,omitempty"`
+	Ran           []string `json:"ran,omitempty"`
 }
 
 func loadSeeded(prop string) []seededChange {
